@@ -53,11 +53,18 @@ theorem classOKj_facts {ci : ClassInfo} {m : XmlMeta} (h : classOKj ci m = true)
     kQName ∉ (allVars m).map (fun v => keyOf v.toVarCore) ∧
     ((allVars m).map (·.name)).Nodup ∧
     (ci.fields.map (·.name)).Nodup ∧
-    (∀ f ∈ ci.fields, ∃ var ∈ allVars m, var.name = f.name ∧ var.init = f.init) := by
+    (∀ f ∈ ci.fields, ∃ var ∈ allVars m, var.name = f.name ∧ var.init = f.init) ∧
+    kChildren ∉ (allVars m).map (fun v => keyOf v.toVarCore) := by
   simp only [classOKj, Bool.and_eq_true, List.all_eq_true, decide_eq_true_eq, Bool.not_eq_true',
     Bool.or_eq_true, bne_iff_ne, ne_eq, List.any_eq_true, beq_iff_eq] at h
-  obtain ⟨⟨⟨⟨⟨⟨h1, h2⟩, h3⟩, h4⟩, h5⟩, h6⟩, h7⟩ := h
-  refine ⟨h1, h2, ?_, ?_, h5, h6, ?_⟩
+  obtain ⟨⟨⟨⟨⟨⟨⟨h1, h2⟩, h3⟩, h4⟩, h4c⟩, h5⟩, h6⟩, h7⟩ := h
+  refine ⟨h1, h2, ?_, ?_, h5, h6, ?_, ?_⟩
+  rotate_right
+  · intro hmem
+    have : ((allVars m).map (fun v => keyOf v.toVarCore)).contains kChildren = true := by
+      simpa using hmem
+    rw [this] at h4c
+    cases h4c
   · intro a ha b hb hor
     rcases h3 a ha b hb with ⟨hn1, hn2⟩ | heq
     · rcases hor with h | h
@@ -144,7 +151,8 @@ theorem bindItem_null (e : BEnv) (rec : Rec) (Γ : Ctx) (cfg : ParserConfig) (m 
   have h4' : var.toVarCore.anyType = false := h4
   have h7' : var.toVarCore.tokens = false := h7
   unfold bindItemWith
-  simp only [h1, Bool.false_eq_true, if_false, Xs.Dict.bindText, h3, bindTextPlain, h2', h4', Bool.or_self, serializeJ]
+  simp only [h1, Bool.false_eq_true, if_false, Xs.Dict.bindText, h3, bindTextPlain, h2', h4', Bool.or_self, serializeJ,
+    scalarType, Bool.and_false]
   unfold defaultNone at hd
   unfold parseVar
   cases hdef : var.default with
@@ -172,11 +180,12 @@ theorem bindItem_prim (e : BEnv) (rec : Rec) (Γ : Ctx) (cfg : ParserConfig) (m 
       cases h
   have hty : var.toVarCore.types = [.prim (pvalType p)] := ht
   have key : Xs.Dict.bindText e cfg var (encPrim p) = .ok (.prim p) := by
-    simp only [Xs.Dict.bindText, h3, Bool.false_eq_true, if_false, bindTextPlain, h2', h4', Bool.or_self, serializeJ_encPrim]
-    unfold parseVar
-    simp only [Option.getD_none, h7', Bool.false_eq_true, if_false, hty, deserialize, List.findSome?,
-      deOne_serPrim e p hq]
-    rfl
+    simp only [Xs.Dict.bindText, h3, Bool.false_eq_true, if_false, bindTextPlain, h2', h4', Bool.or_self, h7', hty]
+    cases p with
+    | str s => simp [encPrim, scalarType, pvalType, rawVal, rawScalar]
+    | int i => simp [encPrim, scalarType, pvalType, rawVal, rawScalar]
+    | bool b => simp [encPrim, scalarType, pvalType, rawVal, rawScalar]
+    | qname t => exact absurd rfl hq
   unfold bindItemWith
   simp only [h1, Bool.false_eq_true, if_false]
   cases p with
@@ -192,6 +201,46 @@ theorem keysEq_false_of_not_mem {α} (d : List (Str × α)) (ks : List Str) (k :
   right
   rw [List.all_eq_false]
   exact ⟨k, hk, by simpa using hn⟩
+
+theorem isGeneric_false_of_not_mem {α} (d : List (Str × α)) (req all : List Str) (k : Str) (hk : k ∈ req)
+    (hn : k ∉ kvKeys d) : isGeneric d req all = false := by
+  unfold isGeneric
+  rw [Bool.and_eq_false_iff]
+  left
+  rw [List.all_eq_false]
+  exact ⟨k, hk, by simpa using hn⟩
+
+theorem bestKeys_eq_self (Γ : Ctx) (cfg : ParserConfig) (pool : List ClassId) (keys : List Str) (k' : ClassId)
+    (hpool : pool.filter (localNamesMatch Γ keys) = [k']) : bestKeys Γ cfg pool keys = keys := by
+  unfold bestKeys
+  split
+  · rfl
+  · have hmem : k' ∈ pool.filter (localNamesMatch Γ keys) := by rw [hpool]; exact List.mem_cons_self ..
+    rw [List.mem_filter] at hmem
+    obtain ⟨hk'p, hk'm⟩ := hmem
+    rw [List.filter_eq_self]
+    intro k hk
+    rw [List.any_eq_true]
+    refine ⟨k', hk'p, ?_⟩
+    unfold localNamesMatch at hk'm ⊢
+    cases hmn : matchNames Γ k' with
+    | none => simp [hmn] at hk'm
+    | some ln =>
+      simp only [hmn, List.all_eq_true] at hk'm
+      simpa using hk'm k hk
+
+/-- when exactly one class of the pool declares the keys and its trial decode has the single result `x`,
+`bind_best_dataclass` has the single result `x` (whatever the configuration and the iteration order) -/
+theorem bindBest_unique (rec : Rec) (Γ : Ctx) (cfg : ParserConfig) (ordered : Bool) (pool : List ClassId)
+    (kvs : List (Str × J)) (k' : ClassId) (x : Val)
+    (hpool : pool.filter (localNamesMatch Γ (kvKeys kvs)) = [k'])
+    (hdec : ∀ cfg' : ParserConfig, rec cfg' k' (.obj kvs) = ND.pure x) :
+    bindBestWith rec Γ cfg ordered pool (.obj kvs) = ND.pure x := by
+  unfold bindBestWith
+  simp only [bestKeys_eq_self Γ cfg pool _ k' hpool, hpool]
+  unfold findBestWith
+  simp only [List.map_cons, List.map_nil, hdec]
+  cases ordered <;> simp [ND.run, ND.pure, maxScore, ND.choose] <;> rfl
 
 theorem bindItem_obj (e : BEnv) (Γ : Ctx) (fac : Factory) (n : Nat) (ih : IH e Γ fac n) (cfg : ParserConfig)
     (m : XmlMeta) (var : XmlVar) (hv : varOKj var = true) (k k' : ClassId) (fs' : List (Str × Val))
@@ -209,10 +258,14 @@ theorem bindItem_obj (e : BEnv) (Γ : Ctx) (fac : Factory) (n : Nat) (ih : IH e 
     rw [hkeys]
     intro hmem
     exact (classOKj_facts hcl).2.2.2.1 (encKeys_sub hmeta _ hmem)
-  have hany : keysEq kvs anyKeys = false :=
-    keysEq_false_of_not_mem kvs anyKeys kQName (by simp [anyKeys]) hq
-  have hder : keysEq kvs derivedKeys = false :=
-    keysEq_false_of_not_mem kvs derivedKeys kQName (by simp [derivedKeys]) hq
+  have hch : kChildren ∉ kvKeys kvs := by
+    rw [hkeys]
+    intro hmem
+    exact (classOKj_facts hcl).2.2.2.2.2.2.2 (encKeys_sub hmeta _ hmem)
+  have hany : isGeneric kvs anyRequired anyKeys = false :=
+    isGeneric_false_of_not_mem kvs anyRequired anyKeys kChildren (by simp [anyRequired]) hch
+  have hder : isGeneric kvs derivedRequired derivedKeys = false :=
+    isGeneric_false_of_not_mem kvs derivedRequired derivedKeys kQName (by simp [derivedRequired]) hq
   unfold bindItemWith
   simp only [h1, Bool.false_eq_true, if_false, hany, hder]
   unfold bindComplexWith
@@ -227,10 +280,7 @@ theorem bindItem_obj (e : BEnv) (Γ : Ctx) (fac : Factory) (n : Nat) (ih : IH e 
   · have hsubs' : (subclassesOf Γ k).isEmpty = false := by simpa using hsubs
     simp only [hsubs', Bool.false_eq_true, if_false, beq_iff_eq] at hpool
     simp only [hsubs', Bool.not_false, if_true]
-    unfold bindBestWith
-    simp only [hkeys, hpool, List.map_cons, List.map_nil, hdec]
-    simp [ND.run, ND.pure, maxScore, ND.choose]
-    rfl
+    exact bindBest_unique _ Γ cfg false _ kvs k' _ (by rw [hkeys]; exact hpool) hdec
 
 def isNoneV : Val → Bool
   | .none => true
@@ -688,7 +738,7 @@ theorem rt_step (e : BEnv) (Γ : Ctx) (fac : Factory) (n : Nat) (ih : IH e Γ fa
   intro c v hok
   obtain ⟨fs, ci, m, hv, hca, hcd, hfind, hmeta, hcl, hnames, hvars, hfields⟩ := valOKj_unpack hok
   subst hv
-  obtain ⟨cv, cnd, cuniq, cq, cnames, cfnames, cfv⟩ := classOKj_facts hcl
+  obtain ⟨cv, cnd, cuniq, cq, cnames, cfnames, cfv, _⟩ := classOKj_facts hcl
   have hx : ∀ var ∈ allVars m, kvGet fs var.name = some (xOf fs var) := by
     intro var hvar
     obtain ⟨x, hget, _⟩ := hvars var hvar
